@@ -1,6 +1,6 @@
 (* C14 — lemmas, part 1: the dictionary is the set of words added and not since removed. *)
 From Coq Require Import ZArith List Bool Lia.
-From FV Require Import Generated.Consts C14.Model.
+From FV Require Import Generated.Consts C14.Model C14.Spec.
 Import ListNotations.
 Open Scope Z_scope.
 
@@ -252,13 +252,6 @@ Qed.
 
 (* ---------- the reference: a duplicate-free list of words ---------- *)
 
-Fixpoint zl_eqb (a b : list Z) : bool :=
-  match a, b with
-  | [], [] => true
-  | x :: a', y :: b' => (x =? y) && zl_eqb a' b'
-  | _, _ => false
-  end.
-
 Lemma zl_eqb_eq a b : zl_eqb a b = true <-> a = b.
 Proof.
   revert b. induction a as [|x a IH]; intros [|y b]; cbn; split; intros H;
@@ -267,26 +260,12 @@ Proof.
   - inversion H; subst. apply andb_true_iff. split; [apply Z.eqb_refl | apply IH; reflexivity].
 Qed.
 
-Definition wmem (w : list Z) (d : list (list Z)) : bool := existsb (zl_eqb w) d.
-
 Lemma wmem_In w d : wmem w d = true <-> In w d.
 Proof.
   unfold wmem. rewrite existsb_exists. split.
   - intros [v [Hin E]]. apply zl_eqb_eq in E. subst. assumption.
   - intros H. exists w. split; [assumption | apply zl_eqb_eq; reflexivity].
 Qed.
-
-Definition dict_add (w : list Z) (d : list (list Z)) : list (list Z) :=
-  match w with [] => d | _ => if wmem w d then d else w :: d end.
-Definition dict_remove (w : list Z) (d : list (list Z)) : list (list Z) :=
-  filter (fun v => negb (zl_eqb w v)) d.
-Definition spec_step (d : list (list Z)) (o : op) : list (list Z) :=
-  match o with
-  | AddWord w => dict_add w d
-  | RemoveWord w => dict_remove w d
-  | Reset => []
-  end.
-Definition spec_run (ops : list op) : list (list Z) := fold_left spec_step ops [].
 
 Lemma in_dict_remove v w d : In v (dict_remove w d) <-> In v d /\ v <> w.
 Proof.
